@@ -309,6 +309,9 @@ class Node(object):
             s, density, en = a
             f = s if opts.get("str") and tbl == "public" else self._formula(tbl, s)
             kw = {"natural_density" if opts.get("natural") else "density": density}
+            if isinstance(en, list):
+                import numpy as np
+                en = np.array(en)
             if opts.get("wavelength"):
                 xsf = self.module("periodictable.xsf")
                 kw["wavelength"] = xsf.xray_wavelength(en)
@@ -367,22 +370,27 @@ class Node(object):
             props, fmt = a
             return self._printed(t.list, *props, format=fmt)
         if which == "mff":
-            ref, charge, Q = a
+            ref, charge, Q = a[:3]
             at = self.atom(tbl, ref)
-            return canon(at.magnetic_ff[charge].M_Q(Q))
+            import numpy as np
+            fn = a[3] if len(a) > 3 else "M_Q"
+            return canon(getattr(at.magnetic_ff[charge], fn)(np.array(Q) if isinstance(Q, list) else Q))
         if which == "f0":
             ref, Q = a
             import numpy as np
             at = self.atom(tbl, ref)
-            return canon(at.xray.f0(np.array(Q)))
+            return canon(at.xray.f0(np.array(Q) if isinstance(Q, list) else Q))
         if which == "mass":
             (s,) = a
             f = self._formula(tbl, s)
             return canon([f.mass, f.charge])
         if which == "refraction":
             s, density, en = a
+            import numpy as np
             xsf = self.module("periodictable.xsf")
             f = self._formula(tbl, s)
+            if isinstance(en, list):
+                en = np.array(en)
             return canon([xsf.index_of_refraction(f, density=density, energy=en),
                           xsf.mirror_reflectivity(f, density=density, energy=en, angle=0.2)])
         if which == "composite":
